@@ -782,6 +782,8 @@ val show_pos_p : byte list -> slice -> byte list
 
 val render_p : byte list -> sx -> byte list
 
+val render : sx -> byte list
+
 val c : string -> sx list -> sx
 
 val sopt : ('a1 -> sx) -> 'a1 option -> sx
@@ -1939,6 +1941,42 @@ val enc_msg_ser : tlsMessage -> byte list
 val spec_out : byte list -> byte list -> byte list
 
 val spec_ser_line : byte list list -> byte list
+
+type rand_time_form =
+| RtWholeSlice
+| RtFirstFour
+
+val rand_time_src : rand_time_form
+
+val rand_time : slice -> n
+
+val rand_bytes : slice -> slice
+
+val cipher_suites : n list -> n option list
+
+val get_cipher : n -> n option
+
+val show_optid : n option -> sx
+
+val show_ch :
+  n -> slice -> slice option -> n list -> n list -> slice option -> byte list
+
+val show_sh : serverHelloC -> byte list
+
+val run_hello_line : byte list list -> byte list
+
+val spec_rand_time : slice -> n
+
+val spec_rand_bytes : slice -> slice
+
+val spec_suite : n -> n option
+
+val spec_ch :
+  n -> slice -> slice option -> n list -> n list -> slice option -> byte list
+
+val spec_sh : serverHelloC -> byte list
+
+val spec_hello_line : byte list list -> byte list
 
 val all_entries : (string * entry_fn) list
 
